@@ -243,6 +243,21 @@ func ruleNum(c *Ctx) {
 				if (f.Name() == "Float64" || f.Name() == "Int64") && recvTypeName(f) == "Number" {
 					bad = fname(fn) + " calls Number." + f.Name() + " at " + lb.posOf(i)
 				}
+				// the standard decoder turns a number into a float64 wherever its target is an
+				// interface: that happens where CreateMergePatch diffs two objects and in the
+				// exported accessor ValueInterface, and nowhere on the side that compares texts
+				if (n == "encoding/json.Unmarshal" || n == "encoding/json.(*Decoder).Decode") && len(call.Call.Args) >= 1 {
+					tgt := call.Call.Args[len(call.Call.Args)-1]
+					if mi, isMI := tgt.(*ssa.MakeInterface); isMI {
+						tgt = mi.X
+					}
+					if pt, isPtr := tgt.Type().Underlying().(*types.Pointer); isPtr && holdsInterfaceOrFloat(pt.Elem(), 0) {
+						okFn := fn == lb.roleFn("createObjectMergePatch") || (recvTypeName(fn) == "Operation" && fn.Name() == "ValueInterface")
+						if !okFn {
+							bad = fname(fn) + " decodes into " + typeShort(pt.Elem()) + " at " + lb.posOf(i) + " (numbers become float64)"
+						}
+					}
+				}
 			})
 		}
 		if bad != "" {
@@ -686,4 +701,30 @@ func ruleKeyOrder(c *Ctx) {
 	} else {
 		l.add("R-KEYORDER", "codec", key, b.posOf(pub), Discharged, "single store after the loop under v.Kind() == reflect.Map", true)
 	}
+}
+
+// holdsInterfaceOrFloat: a value of type t, filled by the standard decoder, holds numbers as
+// float64 somewhere (an interface or a float type in it).
+func holdsInterfaceOrFloat(t types.Type, depth int) bool {
+	if depth > 4 {
+		return false
+	}
+	switch u := t.Underlying().(type) {
+	case *types.Interface:
+		return true
+	case *types.Basic:
+		return u.Info()&types.IsFloat != 0
+	case *types.Map:
+		return holdsInterfaceOrFloat(u.Elem(), depth+1)
+	case *types.Slice:
+		return holdsInterfaceOrFloat(u.Elem(), depth+1)
+	case *types.Array:
+		return holdsInterfaceOrFloat(u.Elem(), depth+1)
+	case *types.Pointer:
+		if n, ok := u.Elem().(*types.Named); ok && n.Obj().Name() == "lazyNode" {
+			return false // decoded by its own UnmarshalJSON, which keeps the text
+		}
+		return holdsInterfaceOrFloat(u.Elem(), depth+1)
+	}
+	return false
 }
